@@ -451,15 +451,15 @@ type stats struct {
 	maxN     uint64
 	probes   int64
 	bySrc    map[string]int64
-	distinct []uint64 // fingerprints of (accumulator, presented leaf, index, proof, flag) tuples over non-empty accumulators (deduplicated at the end)
-	nondec   map[string]int64      // v2txn role -> probes whose control did not pass
+	distinct []uint64         // fingerprints of (accumulator, presented leaf, index, proof, flag) tuples over non-empty accumulators (deduplicated at the end)
+	nondec   map[string]int64 // v2txn role -> probes whose control did not pass
 	suppErr  map[string]int64
 	samples  int
 }
 
 func newStats() *stats {
 	return &stats{asks: map[string]int64{}, verdicts: map[string]*[2]int64{}, kinds: map[string]map[string]int64{}, muts: map[string]int64{},
-		bases: map[string]int64{}, fields: map[string]map[string]int64{}, heights: map[int]int64{}, 
+		bases: map[string]int64{}, fields: map[string]map[string]int64{}, heights: map[int]int64{},
 		nondec: map[string]int64{}, suppErr: map[string]int64{}, bySrc: map[string]int64{}}
 }
 
